@@ -738,7 +738,14 @@ impl<'a> QGen<'a> {
         let tys = from.tys(self.db);
         let ps = pseudo_schema(&names, &tys);
         let g = Gen::new(&ps);
-        let where_ = if r.chance(3, 5) { Some(self.gen_pred(r, &from, 1)) } else { None };
+        let where_ = if r.chance(1, 14) {
+            // an INTEGER-valued WHERE clause: non-zero is TRUE, zero FALSE, NULL unknown
+            Some(Pred::Ex(g.int(r, 1)))
+        } else if r.chance(3, 5) {
+            Some(self.gen_pred(r, &from, 1))
+        } else {
+            None
+        };
         let aggregate = r.chance(2, 5);
         let (group, select, out_tys): (Option<Group>, Vec<E>, Vec<Ty>) = if aggregate {
             let nkeys = if r.chance(1, 3) { 0 } else { r.range(1, 2) as usize };
